@@ -17,6 +17,12 @@ def run(ctx):
               label="chains with walls: oracle KKT, roundings separated/ordered/inside")
     ctx.model("MCChain", "NegChain_allpairs.cfg", workers=2, expect_violation="RoundedSepAllPairs",
               label="negative self-test: literal all-pairs reading fails for stub / narrow label / stub (F-01)")
+    ctx.model("MCLayout", "MCLayout_quick.cfg" if quick else "MCLayout.cfg", workers=core.NCPU, heap="8g", timeout=7200,
+              label="end-to-end model (distributor -> optimum -> rounding) on every label sequence of a lattice x options: order, neighbour "
+                    "separation, inside the walls when it fits, spill keeps separation, within half of the optimum, stub chains")
+    ctx.model("MCLayout", "NegLayout_allpairs.cfg", workers=4, expect_violation="ModelSeparatedAllPairs",
+              label="negative self-test: the end-to-end MODEL itself reproduces known finding F-01 (all-pairs separation fails for "
+                    "two stubs around a narrow label at spacing 0)")
     recs, meta, errors = lc.gather(ctx, ["random", "dense", "bounds", "float", "relayout", "direct"])
     if errors:
         ctx.notes.append("%d layouts raised RecursionError (not part of C01)" % len(errors))
